@@ -855,7 +855,7 @@ class SigmaRegularExpression(SigmaType):
         ) -> Iterator[str | SpecialChars | Placeholder | "SigmaString"]:
             for replacement in callback(p):  # wildcards must be expressed as regular expressions
                 if replacement is SpecialChars.WILDCARD_MULTI:
-                    yield ".*"
+                    yield SigmaString(".") + SpecialChars.WILDCARD_MULTI
                 elif replacement is SpecialChars.WILDCARD_SINGLE:
                     yield "."
                 else:
